@@ -99,7 +99,8 @@ def _mk_solver(kind: str, timeout_s: float) -> Any:
     return s
 
 
-PORTFOLIO = (("z3", 0.15), ("z3-arith2", 0.35), ("z3-qflia", 0.2), ("z3", 0.3))
+# two short passes catch whatever is easy for either arithmetic core, then the long budgets
+PORTFOLIO = (("z3-arith2", 0.04), ("z3", 0.04), ("z3-arith2", 0.32), ("z3-qflia", 0.2), ("z3", 0.3))
 
 
 _VARS_CACHE: dict[int, frozenset] = {}
